@@ -1411,18 +1411,28 @@ class NLDFAuxiliaryPlan(ABC):
         self._run_setup()
 
     def new(self, **kwargs):
+        # __init__ stores alpha0 / (lambd - 1) for 'zexp' and rhocut / nspin,
+        # so undo both before passing them to the constructor again
+        alpha0 = self.alpha0
+        if self.alpha_formula == "zexp":
+            alpha0 = alpha0 * (self.lambd - 1)
         new_kwargs = dict(
             nldf_settings=self.nldf_settings,
             nspin=self.nspin,
-            alpha0=self.alpha0,
+            alpha0=alpha0,
             lambd=self.lambd,
             nalpha=self.nalpha,
             coef_order=self.coef_order,
             alpha_formula=self.alpha_formula,
             proc_inds=self.proc_inds,
-            rhocut=self.rhocut,
+            rhocut=self.rhocut * self.nspin,
             expcut=self.expcut,
+            raise_large_expnt_error=self._raise_large_expnt_error,
+            use_smooth_expnt_cutoff=self._use_smooth_expnt_cutoff,
         )
+        spline_size = getattr(self, "_spline_size", None)
+        if spline_size is not None and spline_size != self.nalpha:
+            new_kwargs["spline_size"] = spline_size
         new_kwargs.update(kwargs)
         return self.__class__(**new_kwargs)
 
